@@ -38,6 +38,7 @@ def make_pool(rng, kbpk):
                          ("F", 5, "S"), ("F", 1, "K"), ("F", 2, "__")]
     pool["wrap"] = [("W", rng.randbytes(16), None), ("W", rng.randbytes(5), 30), ("W", b"", None), ("W", rng.randbytes(24), -1)]
     pool["str"] = [("S",)]
+    pool["set_kbpk"] = [("K", kbpk), ("K", rng.randbytes(len(kbpk))), ("K", kbpk)]
     return pool
 
 
@@ -99,7 +100,7 @@ def run(ctx):
                         viol.append({"what": "wrap modified the header of a reused object", "input": {"ops": [core.op_token(x)[:80] for x in ops[:i + 1]]},
                                      "expected": before, "observed": core.show_header(kb.header)})
                     # wrap depends only on kbpk + current header values: a fresh object with those values opens to the same
-                    h2, k2 = tr31.unwrap(kbpk, s)
+                    h2, k2 = tr31.unwrap(kb.kbpk, s)
                     if k2 != op[1]:
                         viol.append({"what": "wrap on a reused object does not round-trip", "input": {"ops": [core.op_token(x)[:80] for x in ops[:i + 1]]},
                                      "expected": core.show(op[1]), "observed": core.show(k2)})
@@ -112,12 +113,14 @@ def run(ctx):
                     kb.header.blocks[op[1]] = op[2]; out = "none"
                 elif op[0] == "D":
                     del kb.header.blocks[op[1]]; out = "none"
+                elif op[0] == "K":
+                    kb.kbpk = op[1]; out = "none"
                 else:
                     out = "str:" + core.show(str(kb))
             except Exception as e:  # noqa: BLE001
                 out = "err:" + core.bucket(e)
             if op[0] in ("U", "L"):
-                fh, fout = fresh_outcome(kbpk, op)
+                fh, fout = fresh_outcome(kb.kbpk, op)
                 same_out = (out == fout)
                 same_hdr = (core.show_header(kb.header) == fh) if not out.startswith("err:") else True
                 if not (same_out and same_hdr):
